@@ -66,7 +66,7 @@ _ODEINT_REPORT = r'''            printf("OBS calls=%ld\n", vt_odeint_script().ob
 '''
 
 
-def build_solve_driver(proj, sanitize=True):
+def build_solve_driver(proj, sanitize=True, pymodule=False):
     """Compile the rendered project (unchanged sources) + driver against the mock. Returns path of the binary."""
     from ..ratecase import data_fields
 
@@ -88,6 +88,9 @@ def build_solve_driver(proj, sanitize=True):
     flags = ["-std=c++14", "-O0", "-g", "-fno-omit-frame-pointer", "-Wno-everything"]
     if sanitize:
         flags += ["-fsanitize=address,undefined", "-fno-sanitize-recover=undefined"]
+    if pymodule:
+        # the Python entry points (PyWrap*) are compiled in, against the pybind11 stand-in of the shim directory
+        flags += ["-DPYMODULE", "-DPYMODNAME=vtmodule"]
     cmd = [CXX, *flags, f"-I{SHIM}", f"-I{proj.path / 'include'}", *srcs, str(drv), "-o", str(exe)]
     p = subprocess.run(cmd, capture_output=True, text=True)
     if p.returncode != 0:
